@@ -46,3 +46,31 @@ def truthiness_tests(fn):
             if isinstance(t, ast.BoolOp):
                 continue
             yield t, n
+
+
+import re as _re
+POSLIKE = _re.compile(r'^(pos|start|end|idx|index|offset|lineno|colno|p|i|j|k)$|(^|_)(pos|start|end|idx|index|offset)(_|$)')
+
+
+def position_truthiness(fn):
+    """Yield (name, test expression, enclosing node) where a local that holds a position -- it is
+    named like one AND is used as a number in the same function (operand of + / -, slice bound,
+    ordering comparison) -- is tested by truthiness: position 0 is then treated like "none"."""
+    numeric = set()
+    for n in iter_own(fn):
+        if isinstance(n, ast.BinOp) and isinstance(n.op, (ast.Add, ast.Sub)):
+            for side in (n.left, n.right):
+                if isinstance(side, ast.Name):
+                    numeric.add(side.id)
+        elif isinstance(n, ast.Slice):
+            for b in (n.lower, n.upper):
+                if isinstance(b, ast.Name):
+                    numeric.add(b.id)
+        elif isinstance(n, ast.Compare) and len(n.ops) == 1 and isinstance(n.ops[0], (ast.Lt, ast.LtE, ast.Gt, ast.GtE)):
+            for side in (n.left, n.comparators[0]):
+                if isinstance(side, ast.Name):
+                    numeric.add(side.id)
+    for t, where in truthiness_tests(fn):
+        x = t
+        if isinstance(x, ast.Name) and x.id in numeric and POSLIKE.search(x.id):
+            yield x.id, t, where
